@@ -89,10 +89,16 @@ def run(ctx):
             msgsets = tuple(m for m in ofx_server.ALL_MSGSETS if m in stm or m not in ("BANKMSGSET", "CREDITCARDMSGSET", "INVSTMTMSGSET"))
             closing = rnd.choice(["Y", "N"])
 
-            def responder(host, path, body, adv=adv):
+            # a server that MOVES its service between two calls without touching the profile date (and ignores the date the
+            # client names): the request goes where the profile just received says
+            moving = rnd.random() < 0.25
+            cur = [adv]
+
+            def responder(host, path, body):
                 if b"<PROFRQ>" in body:
-                    dtprof[0] += 1
-                    return 200, ofx_server.profile(mins, HOSTURL[adv], dtprofup="202001%02d000000.000[+0:UTC]" % min(dtprof[0], 28),
+                    if not moving:
+                        dtprof[0] += 1
+                    return 200, ofx_server.profile(mins, HOSTURL[cur[0]], dtprofup="202001%02d000000.000[+0:UTC]" % min(max(dtprof[0], 1), 28),
                                                    msgsets=msgsets, closingavail=closing).encode()
                 return 200, ofx_server.empty_response(mins).encode()
             net.responder = responder
@@ -110,6 +116,8 @@ def run(ctx):
             evs.append({"id": "h%d" % bi, "op": "env", "adv": adv, "sets": {"cfg": bool(beh["sets"]["cfg"]), "svc": bool(beh["sets"]["svc"])},
                         "userid": cps(userid), "password": cps(password), "useragent": {c: cps(uas[c]) for c in uas}, "nopersist": nop})
             for ci, call in enumerate(beh["calls"]):
+                if moving and ci > 0 and rnd.random() < 0.4:
+                    cur[0] = "svc" if cur[0] == "cfg" else "cfg"
                 cl = clients[call["client"]]
                 n0 = len(net.log)
                 dry = call["mode"] == "dry"
@@ -137,7 +145,7 @@ def run(ctx):
                                   "cookie": fakenet.sid_of(h), "ctype": cps(h.get("content-type", "")), "accept": cps(h.get("accept", "")),
                                   "ua": cps(h.get("user-agent", "")), "file": list(rec["body"])})
                 evs.append({"id": "h%dc%d" % (bi, ci), "op": "call", "client": call["client"], "kind": call["kind"], "mode": call["mode"],
-                            "posts": posts, "exc": exc})
+                            "posts": posts, "exc": exc, "adv": cur[0]})
                 ctx.nontrivial.add((call["kind"], call["mode"], adv, beh["sets"]["cfg"], beh["sets"]["svc"], call["client"]))
             shutil.rmtree(data, ignore_errors=True)
         # ---- two tenants of one provider: URLs that differ in the query string only, equal ORG / FID, one data directory;
